@@ -2,6 +2,7 @@ from construct.core import ConstructError
 from io import IOBase
 from io import SEEK_END
 from io import SEEK_SET
+from struct import error as StructError
 from typing import List, cast
 
 from smpl_extract.base import ElementTypes
@@ -45,7 +46,7 @@ class AkaiImageParser(Image):
                     _elem_parent=self,
                     _elem_routines=self._routines
                 )  
-            except (InvalidPartition, ConstructError) as e:
+            except (InvalidPartition, ConstructError, StructError) as e:
                 break
             partitions.append(partition)
             partition_cnt += 1
